@@ -42,6 +42,8 @@ C16 line-protocol driver.
   rename <n> <opts>              n sites on ports 8080+i and `servers :<port> { name … }` options (i:name,…): repeated
                                  adaptation and "no server lost", oracle only                 → `oracle-only`
   perm <text> <seed>             \
+  nmeq <textA> <textB>           like eqv, for sites whose named matchers are used at top level, in nested blocks and
+                                 inside handle_errors (plus "a named matcher means the same at every use")
   eqv <textA> <textB>             | oracle only, no model answer            → `oracle-only`
   leak <textP> <textT>           /
 
@@ -423,6 +425,7 @@ def handle : List String → String
           | _ => false) then "oracle-only" else "bad-op"
     | none => "bad-op"
   | ["perm", t, seed] => if (hexField t).isSome && (canonNat seed).isSome then "oracle-only" else "bad-op"
+  | ["nmeq", a, b] => if (hexField a).isSome && (hexField b).isSome then "oracle-only" else "bad-op"
   | ["eqv", a, b] => if (hexField a).isSome && (hexField b).isSome then "oracle-only" else "bad-op"
   | ["leak", a, b] => if (hexField a).isSome && (hexField b).isSome then "oracle-only" else "bad-op"
   | _ => "bad-op"
